@@ -115,7 +115,7 @@ func c12Verdict(r *vReport, errs []*Error, rp map[string]any) {
 func TestVerifC12(t *testing.T) {
 	r := vNewReport("C12")
 	defer r.Write(t)
-	r.Extra["rule"] = "every non-exempt scalar value position of the 4 maximal seeds (its table key given by the documentation-derived schema) x 12 contexts + 5 special functions x 6 embeddings (bare, upper-cased, nested in &&, call argument, after another placeholder, second call argument; for if: keys also without the ${{ }} marker), complete product; oracle = transcription of GitHub's context availability table; class = (table key, name, allowed?); non-trivial = not allowed"
+	r.Extra["rule"] = "every non-exempt scalar value position of the 4 maximal seeds (its table key given by the documentation-derived schema) x 12 contexts + 5 special functions x 6 embeddings (bare, upper-cased, nested in &&, call argument, after another placeholder, second call argument; for if: keys also without the ${{ }} marker), complete product; plus every position with one neighbour replaced by a value of another type / form x {secrets, github, always} x 2 embeddings; oracle = transcription of GitHub's context availability table; class = (table key, name, allowed?); non-trivial = not allowed"
 	r.Extra["assumptions"] = []string{"the availability table is the transcription frozen in lib_catalogue.go (appendix E)", "for the jobs context outside workflow_call outputs 'undefined variable' counts as the report"}
 	if raw := vReplayInput(); raw != nil {
 		var rp map[string]any
@@ -184,6 +184,36 @@ func TestVerifC12(t *testing.T) {
 					if idx%3331 == 0 {
 						r.Sample(map[string]any{"seed": c.Seed, "position": p.Path, "table_key": sch.Avail, "name": n.name, "text": text, "allowed_by_table": c12Allowed(sch.Avail, n.name, n.isFunc)})
 					}
+				}
+			}
+		}
+	}
+	// the same positions when a neighbour in the same sequence / mapping has another type or form
+	// (restricted to 2 names and 2 embeddings per position: the verdict table is the one above)
+	skipped := 0
+	for _, v := range vSiblingVariations(cats, &skipped) {
+		for _, p := range v.Cat.Scalars {
+			if !vDirectChild(v.Container, p.Path) {
+				continue
+			}
+			sch, ok := vSchemaOf(p.NPath)
+			if !ok || sch.Exempt {
+				continue
+			}
+			for _, n := range []struct {
+				name   string
+				isFunc bool
+			}{{"secrets", false}, {"github", false}, {"always", true}} {
+				for e, text := range c12Embeddings(n.name, n.isFunc)[:2] {
+					idx++
+					if !r.Mine(idx) {
+						continue
+					}
+					if idx%1024 == 0 && r.Expired() {
+						return
+					}
+					r.Begin(func() string { return fmt.Sprintf("%s %s %s emb %d", v.Cat.Seed, p.Path, n.name, e) })
+					c12Judge(r, v.Cat, p, sch, n.name, n.isFunc, e, text)
 				}
 			}
 		}
